@@ -159,4 +159,19 @@ CHECKS = {
                 "answered with an error frame (known finding)",
         "technique": "Lean 4 proof (per-call stage invariant by induction over action sequences, refutation witnesses) + regenerated tie lemmas + exact and concurrent correspondence runs",
     },
+    "C13": {
+        "level_note": "partial",
+        "text": "Lean 4 invariants over all action sequences of the per-connection subscription machine (local handler, "
+                "count under the subscription lock, remote (un)registration with its reply awaited, server table entry, "
+                "FIFO log of everything the server puts on the connection, in-order dispatch, handler removal): what a "
+                "subscriber received is exactly the event frames of a segment of the log (hence strictly increasing "
+                "emission indices, each with the emitted payload, nothing of other signals); every event emitted between "
+                "its acknowledgement and its cancel request was put on its connection and, once dispatched before the "
+                "cancel request, received; after cancel the handler can be removed and nothing is added afterwards; no "
+                "event after the unregistration was handled; removing one user of the server's table keeps all others; "
+                "the two repaired defects are kept as refutation theorems of the old choices",
+        "note": "partial: an emission is modelled atomic w.r.t. (un)registration (the snapshot-then-send race of UpdateSignal is an "
+                "assumption), and the window's end is the dispatch position at the cancel request",
+        "technique": "Lean 4 proof (log-segment and registration invariants by induction over action sequences, refutation witnesses) + regenerated tie lemmas + scripted hold/release correspondence and concurrent storms",
+    },
 }
